@@ -41,6 +41,10 @@ class P(DockProp):
         opts = {cid: [str(start // S), str(-(-end // S))] for cid in exp}
         evals.append({"q": b64e(q), "qcoq": "DQLog (%s) 0" % g.query_coq(sel, pipe), "limit": 0, "start": start, "end": end, "step": 0, "release": list(range(nc)),
                       "exp_selected": exp, "exp_opts": opts, "must_err": False, "must_ok": True})
+        # ... and with a positive limit: the limit is the engine's business, the daemon is still asked for everything in the window
+        if rng.random() < 0.5:
+            evals.append({"q": b64e(q), "qcoq": "DQLog (%s) %d" % (g.query_coq(sel, pipe), 2), "limit": 2, "start": start, "end": end, "step": 0, "release": list(range(nc)),
+                          "exp_selected": exp, "exp_opts": opts, "must_err": False, "must_ok": True})
         # the same as an instant query: 30 s look-back on the lower bound
         if rng.random() < 0.5:
             evals.append({"q": b64e(q), "qcoq": "DQLog (%s) 0" % g.query_coq(sel, pipe), "limit": 0, "start": end, "end": end, "step": 0, "release": list(reversed(range(nc))),
